@@ -93,6 +93,13 @@ func (s *c09) concurrentPhase(budget int) {
 		}
 	}
 
+	type lateSub struct {
+		ch    <-chan *certs.FinalityCertificate
+		close func()
+		by    string
+	}
+	var lateSubs []lateSub
+
 	writer := func(name string, n int) func() {
 		return func() {
 			for k := 0; k < n && s.viol == nil; k++ {
@@ -154,7 +161,12 @@ func (s *c09) concurrentPhase(budget int) {
 			lastLatest := -1
 			for k := 0; k < n && s.viol == nil; k++ {
 				lo := len(m.certs) // committed when the operation starts
-				switch c.Pick([]int{25, 30, 30, 15}) {
+				switch c.Pick([]int{25, 30, 30, 15, 10}) {
+				case 4: // Subscribe while writers are active: checked when the phase is over
+					ch, closer := cs.Subscribe()
+					lateSubs = append(lateSubs, lateSub{ch, closer, name})
+					s.r.Probe("concurrent_subscribe")
+					s.r.Tracef("c: %s Subscribe", name)
 				case 0: // Get
 					j := c.Intn(lo + 3)
 					inst := first + uint64(j)
@@ -265,6 +277,34 @@ func (s *c09) concurrentPhase(budget int) {
 			}
 			s.fail("store_panicked", "concurrent", "task %s panicked: %v", t.Name, t.Panic)
 			return
+		}
+	}
+	// a subscription taken while writers were active must (eventually) yield the latest certificate
+	for _, ls := range lateSubs {
+		var last *certs.FinalityCertificate
+		for drained := false; !drained; {
+			select {
+			case v, ok := <-ls.ch:
+				if !ok {
+					drained = true
+				} else {
+					last = v
+				}
+			default:
+				drained = true
+			}
+		}
+		ls.close()
+		if s.viol != nil || len(m.certs) == 0 {
+			continue
+		}
+		want := m.certs[len(m.certs)-1]
+		if last == nil || !bytes.Equal(certgen.CertBytes(last), certgen.CertBytes(want)) {
+			got := "nothing"
+			if last != nil {
+				got = fmt.Sprintf("the certificate of instance %d", last.GPBFTInstance)
+			}
+			s.fail("subscriber_missed_latest", "concurrent", "a subscription taken by %s while writers were active yields %s although the store's latest certificate is instance %d and no writer is active any more", ls.by, got, want.GPBFTInstance)
 		}
 	}
 	if s.viol == nil {
